@@ -690,6 +690,16 @@ impl<'a, 'ast> Visit<'ast> for R4Find<'a> {
                 }
                 format!("(match {recv} {{ {some}({p}) => {b}, {none_pat} => {none_id} }})")
             }
+            ("map_err", 1) if is_res => {
+                // std: `x.map_err(f)` == `match x { Ok(v) => Ok(v), Err(e) => Err(f(e)) }` (only when listed in //@r4result)
+                let Some((p, b)) = clos(args[0]) else { return };
+                if closure_has_escape(args[0]) {
+                    self.err = Some("R4: closure contains return/?".into());
+                    return;
+                }
+                let p = if p.is_empty() { "_".to_string() } else { p };
+                format!("(match {recv} {{ Ok(__v) => Ok(__v), Err({p}) => Err({b}) }})")
+            }
             ("or_else", 1) if !is_res => {
                 // std: `x.or_else(f)` == `match x { x @ Some(_) => x, None => f() }`
                 if !matches!(args[0], Expr::Closure(_)) {
